@@ -441,7 +441,8 @@ int main()
         try
         {
             if (cfg_bad) { throw std::invalid_argument("cfg"); }
-            lines = run_history(cfg, plan, cycles);
+            if (cycles.empty()) { lines = {"res=ok stop=- ret=0/0/0 rel=- fin=0/0/0/0"}; }   // nothing to run
+            else { lines = run_history(cfg, plan, cycles); }
         }
         catch (const std::exception &e)
         {
